@@ -294,6 +294,78 @@ def cascade_data_body():
     return body
 
 
+def cascade_data_ragged_body():
+    """Data cascade over two populations whose entries are not in the same years: a stage is the sum of the entries of that year, and
+    is not a number where an entry is missing (nothing carries over from another population or year)"""
+
+    def body(env):
+        import atomica.cascade as acs
+        import math
+
+        with _patch(env):
+            P = project("M12t", 3, 0.25, pops=2)
+            data = copy.deepcopy(P.data)
+            names = list(data.pops.keys())
+            years = [2000.0, 2001.0]
+            have = {}
+            for code in ("dx", "tx", "lost"):
+                for pi, pop in enumerate(names):
+                    ts = data.get_ts(code, pop)
+                    yrs = list(years) if not (pi == 1 and code == "tx") else [2000.0]  # the second population has no 2001 entry for tx
+                    ts.t = list(yrs)
+                    ts.vals = [env.real("data|%s|%s|%g" % (code, pop, y), 0, 1e6) for y in yrs]
+                    ts.assumption = None
+                    for y, v in zip(yrs, ts.vals):
+                        have[(code, pop, y)] = v
+            cascade = {"known": ["dx", "tx", "lost"], "in care or lost": ["dx", "lost"]}
+            out, t = acs.get_cascade_data(data, P.framework, cascade, pops="all", year=years)
+        for stage, members in cascade.items():
+            for k, y in enumerate(years):
+                parts = [have.get((code, pop, y)) for code in members for pop in names]
+                got = out[stage][k]
+                if any(p is None for p in parts):
+                    env.claim("data_cascade_missing_entry_is_nan|%s|%g" % (stage, y), env.true(isinstance(got, (float, np.floating)) and math.isnan(got)), key="cascade_data_missing")
+                else:
+                    tot = 0.0
+                    for p in parts:
+                        tot = tot + p
+                    env.claim("data_cascade|%s|%g" % (stage, y), env.true(not (isinstance(got, (float, np.floating)) and math.isnan(got))) & env.eq(got, tot), key="cascade_data")
+
+    return body
+
+
+def interpolation_body():
+    """PlotData.interpolate: the value reported at a requested time is the linear interpolation of the series at that time, whatever
+    other times are requested with it (also when the request has as many points as the simulation grid and the same end points)"""
+
+    def body(env):
+        import atomica.plotting as apl
+
+        with _patch(env):
+            P, m, res = _result(env)
+            names = [p.name for p in m.pops]
+            grid = [float(t) for t in m.t]
+            outs = ["tx", {"care": ["dx", "tx"]}]
+            pops = [names[0], {"total": names}]
+            ref = apl.PlotData(res, outputs=copy.deepcopy(outs), pops=copy.deepcopy(pops))
+            base = {(s.pop, s.output): list(s.vals) for s in ref.series}
+            requests = {"same_size_same_ends": [grid[0], grid[0] + 0.1, grid[-1]], "single": [grid[0] + 0.1], "denser": [grid[0], grid[0] + 0.05, grid[1], grid[1] + 0.2, grid[-1]], "grid": list(grid)}
+            for label, tv in requests.items():
+                d = apl.PlotData(res, outputs=copy.deepcopy(outs), pops=copy.deepcopy(pops)).interpolate(np.array(tv))
+                for s in d.series:
+                    v0 = base[(s.pop, s.output)]
+                    for k, t in enumerate(tv):
+                        j = max(i for i in range(len(grid)) if grid[i] <= t)
+                        if j == len(grid) - 1:
+                            want = v0[j]
+                        else:
+                            w = (t - grid[j]) / (grid[j + 1] - grid[j])
+                            want = v0[j] + (v0[j + 1] - v0[j]) * w
+                        env.claim("interpolated|%s|%s@%s|t=%g" % (label, s.output, s.pop, t), env.eq(s.vals[k], want), key="interpolation")
+
+    return body
+
+
 def _funcs():
     import atomica.plotting as apl
     import atomica.cascade as acs
@@ -313,6 +385,8 @@ def specs(tier):
     out.append(("sums_and_averages", sums_body, dict()))
     for op in ("construct", "accumulate_sum", "accumulate_integrate", "time_aggregate"):
         out.append(("purity[%s]" % op, purity_body, dict(op=op)))
+    out.append(("interpolation", interpolation_body, dict()))
+    out.append(("cascade_data[ragged years]", cascade_data_ragged_body, dict()))
     out.append(("cascade_values", cascade_vals_body, dict()))
     out.append(("cascade_adhoc", adhoc_cascade_body, dict()))
     out.append(("cascade_data", cascade_data_body, dict()))
